@@ -171,18 +171,19 @@ type vfC15ActorRes struct {
 }
 
 type vfC15Actor struct {
-	id      int
-	node    *vfC15Node
-	prog    []vfC15ActorOp
-	res     []vfC15ActorRes
-	req     chan string
-	grant   chan struct{}
-	done    chan struct{}
-	cur     atomic.Int32
-	pending string
-	fin     bool
-	last    string
-	panicV  any
+	id        int
+	node      *vfC15Node
+	prog      []vfC15ActorOp
+	res       []vfC15ActorRes
+	req       chan string
+	grant     chan struct{}
+	done      chan struct{}
+	cur       atomic.Int32
+	pending   string
+	fin       bool
+	last      string
+	lastFirst time.Time // when the first of a run of identical calls was granted (patient mode bookkeeping)
+	panicV    any
 }
 
 func (w *vfC15World) runActor(a *vfC15Actor) {
@@ -213,6 +214,16 @@ func (w *vfC15World) runActor(a *vfC15Actor) {
 	}
 }
 
+// vfC15PatientTimeout is the wait budget of a "patient" node. While the node it waits for is alive the
+// wait must not expire: the scheduler runs that node to the end of its operation before the next
+// poll, and if that took longer than vfC15PatientSlack of wall-clock (overloaded machine) the case is
+// dropped as inconclusive — the clock never contributes to a verdict. A wait for something that will
+// never come (e.g. a config deleted after the poller read the registry) runs its full length.
+const (
+	vfC15PatientTimeout = 3 * time.Second
+	vfC15PatientSlack   = time.Second
+)
+
 // runRace starts the actors and grants their storage calls one at a time; choose picks among the two
 // actors when both are waiting. In patient mode an actor that repeats its previous read is polling for
 // the other node's change: that node is then run to the end of its current operation first.
@@ -236,6 +247,9 @@ func (w *vfC15World) runRace(actors []*vfC15Actor, patient bool, choose func(rea
 	}
 	grant := func(a *vfC15Actor) bool {
 		sched = append(sched, fmt.Sprintf("%d:%s", a.node.id, a.pending))
+		if a.pending != a.last {
+			a.lastFirst = time.Now()
+		}
 		a.last = a.pending
 		a.grant <- struct{}{}
 		return wait(a)
@@ -261,6 +275,9 @@ func (w *vfC15World) runRace(actors []*vfC15Actor, patient bool, choose func(rea
 					if !grant(other) {
 						return sched, switches, false
 					}
+				}
+				if time.Since(pick.lastFirst) > vfC15PatientSlack {
+					return sched, switches, false // too slow to tell a patient wait from an expired one
 				}
 				lastActor = other.id
 				continue
@@ -376,6 +393,7 @@ func TestVerif_C15_Race(t *testing.T) {
 	defer rec.Flush()
 	ctx := base.TestCtx(t)
 	rapid.Check(t, func(rt *rapid.T) {
+		started := time.Now() // reporting only (class wall=...), never part of a verdict
 		nDB := rapid.IntRange(2, 3).Draw(rt, "dbs")
 		w, err := vfC15NewWorld(rt, "Race", ctx, nDB, vfC15MenuFull)
 		if err != nil {
@@ -403,7 +421,7 @@ func TestVerif_C15_Race(t *testing.T) {
 				a := &vfC15Actor{id: i, req: make(chan string), grant: make(chan struct{}), done: make(chan struct{})}
 				a.node = w.NewNode()
 				if patient {
-					a.node.bc.configRetryTimeout = 20 * time.Second // never meant to expire: the scheduler lets the awaited node finish first
+					a.node.bc.configRetryTimeout = vfC15PatientTimeout
 				} else {
 					a.node.bc.configRetryTimeout = 1 // nanosecond: a version mismatch is acted upon at once
 				}
@@ -466,7 +484,7 @@ func TestVerif_C15_Race(t *testing.T) {
 			})
 			if !ok {
 				rec.Inconclusive()
-				kit.InconclusiveLine("C15", "race actor did not reach its next storage call within 120s: %s", w.render())
+				kit.InconclusiveLine("C15", "race: an actor did not reach its next storage call within 120s, or the machine was too slow to keep a patient wait from expiring: %s", w.render())
 				rt.Skip("inconclusive")
 			}
 			w.logf("schedule[%s]", strings.Join(sched, " "))
@@ -615,7 +633,16 @@ func TestVerif_C15_Race(t *testing.T) {
 				w.model[i].allowed = []*vfC15Cfg{seen[name]}
 			}
 			w.probes(final, 900)
-			vfC15FlushWorld(w, rec, switches >= 2, fmt.Sprintf("patient=%v", patient), fmt.Sprintf("switches=%d", min(switches, 6)))
+			bucket := "<0.1s"
+			switch el := time.Since(started); {
+			case el > 5*time.Second:
+				bucket = ">5s"
+			case el > time.Second:
+				bucket = "1-5s"
+			case el > 100*time.Millisecond:
+				bucket = "0.1-1s"
+			}
+			vfC15FlushWorld(w, rec, switches >= 2, fmt.Sprintf("patient=%v", patient), fmt.Sprintf("switches=%d", min(switches, 6)), fmt.Sprintf("wall(patient=%v)%s", patient, bucket))
 		})
 	})
 }
